@@ -41,7 +41,10 @@ def tensor_dtype_to_field(tensor_dtype):
 
 
 def get_attribute_value(attr):
-    """Value of an AttributeProto according to its `type` tag."""
+    """Value of an AttributeProto according to its `type` tag (a reference attribute, which
+    only occurs inside function bodies, has no value: ValueError as in onnx)."""
+    if attr.ref_attr_name:
+        raise ValueError("Cannot get value of reference attribute: %r" % (attr,))
     t = attr.type
     if t == AttributeProto.FLOAT:
         return attr.f
